@@ -446,7 +446,7 @@ func (in *inst) rewriteMapRanges() {
 		m := in.fresh("m")
 		k := in.fresh("k")
 		site := in.fset.Position(r.Pos())
-		label := fmt.Sprintf("%s:%d", filepath.Base(site.Filename), site.Line)
+		label := fmt.Sprintf("%s/%s:%d", filepath.Base(filepath.Dir(site.Filename)), filepath.Base(site.Filename), site.Line)
 		hoist := &ast.AssignStmt{Lhs: []ast.Expr{m}, Tok: token.DEFINE, Rhs: []ast.Expr{r.X}}
 		var body []ast.Stmt
 		keyIsBlank := false
